@@ -9,6 +9,7 @@
 
 static std::string MINI;       // text of data/c06/mini.dat
 static std::string DBDIR;      // <repo>/database
+static std::string IN_SPEC, IN_KIN, IN_BASIC, IN_ADV, IN_TRN, IN_TRM, IN_INV, IN_ERR, IN_ERR2;   // data/c06/inputs/*.in
 
 unsigned long long fnv1a(const std::string &s) {
   unsigned long long h = 1469598103934665603ULL;
@@ -25,7 +26,14 @@ static std::string readfile(const char *f) {
   return s;
 }
 
-void bodies_init(const char *mini, const char *dbdir) { MINI = readfile(mini); DBDIR = dbdir; }
+void bodies_init(const char *mini, const char *dbdir) {
+  MINI = readfile(mini); DBDIR = dbdir;
+  std::string d(mini);
+  d = d.substr(0, d.rfind('/')) + "/inputs/";
+  IN_SPEC = readfile((d + "spec.in").c_str()); IN_KIN = readfile((d + "kin.in").c_str()); IN_BASIC = readfile((d + "basic.in").c_str());
+  IN_ADV = readfile((d + "adv.in").c_str()); IN_TRN = readfile((d + "trn.in").c_str()); IN_TRM = readfile((d + "trm.in").c_str());
+  IN_INV = readfile((d + "inv.in").c_str()); IN_ERR = readfile((d + "err.in").c_str()); IN_ERR2 = readfile((d + "err2.in").c_str());
+}
 size_t registry_size() { return IPhreeqc::Instances.size(); }
 
 // ---------------------------------------------------------------- observation helpers
@@ -36,7 +44,10 @@ static void add(BodyOut &o, const char *tag, const char *s) {
   while (*p) {
     const char *e = strchr(p, '\n');
     size_t n = e ? (size_t)(e - p) + 1 : strlen(p);
-    if (!(n >= 16 && memmem(p, n, "End of Run after", 16))) o.obs.append(p, n);
+    // ... and the rows of dashes around it, whose length follows the number of digits of the elapsed time
+    bool dashes = n >= 4;
+    for (size_t i = 0; dashes && i < n; i++) if (p[i] != '-' && p[i] != '\n') dashes = false;
+    if (!dashes && !(n >= 16 && memmem(p, n, "End of Run after", 16))) o.obs.append(p, n);
     p += n;
   }
   o.obs += "]\n";
@@ -114,51 +125,23 @@ static void run_body(int tidx, BodyOut &o, const char *input, bool big_db = fals
   addi(o, "after_destroy", GetOutputStringLineCount(id));   // documented: 0 lines / bad instance
 }
 
-// ---------------------------------------------------------------- inputs
-static const char *IN_SPEC =
-    "SOLUTION 1\n temp 25\n pH 7 charge\n Na 1\n Cl 1\n Ca 0.5\n C 1\n"
-    "SELECTED_OUTPUT 1\n -reset false\n -pH true\n -totals Na Ca C\n -molalities HCO3- CaCO3\n -saturation_indices Calcite CO2(g)\n"
-    "USER_PUNCH 1\n -headings mu tc\n 10 PUNCH MU, TC\n"
-    "SELECTED_OUTPUT 2\n -reset false\n -high_precision true\n -activities H+ Ca+2\nEND\n"
-    "USE solution 1\nEQUILIBRIUM_PHASES 1\n Calcite 0 1\n CO2(g) -2 1\nSAVE solution 2\nDUMP\n -solution 2\nEND\n";
+// ---------------------------------------------------------------- inputs (data/c06/inputs/*.in, shared with the Python side)
 
-static const char *IN_KIN =
-    "SOLUTION 1\n Na 1\n Cl 1\nKINETICS 1\n Decay\n -formula NaCl 1\n -m 0.01\n -parms 1e-3\n -steps 300 in 3 steps\n"
-    "INCREMENTAL_REACTIONS true\n"
-    "SELECTED_OUTPUT 1\n -reset false\n -time true\n -kinetic_reactants Decay\n -totals Na\nEND\n"
-    "USE solution 1\nKINETICS 2\n Decay\n -formula NaCl 1\n -m 0.02\n -parms 2e-3\n -steps 100 200\n -cvode true\nEND\n";
 
-static const char *IN_BASIC =
-    "SOLUTION 1\n Na 1\n Cl 1\n Ca 2\n C 1\n"
-    "CALCULATE_VALUES\n twice_ca\n -start\n 10 SAVE 2*TOT(\"Ca\")\n -end\n"
-    "USER_PRINT\n -start\n 10 FOR i = 1 TO 5\n 20 s = s + i * i\n 30 NEXT i\n 40 PUT(s, 1, 2)\n 50 PRINT \"sumsq\", s, GET(1, 2), CALC_VALUE(\"twice_ca\")\n"
-    " 60 a$ = \"abc\" + STR$(LEN(\"hello\"))\n 70 PRINT a$, MID$(a$, 2, 2), INSTR(a$, \"c\")\n 80 IF s > 50 THEN GOSUB 200\n 90 END\n 200 PRINT \"big\", LOG10(s), EXP(1)\n 210 RETURN\n -end\n"
-    "SELECTED_OUTPUT 1\n -reset false\nUSER_PUNCH 1\n -headings a b c\n 10 DIM v(3)\n 20 v(1) = MOL(\"Na+\")\n 30 v(2) = LA(\"Ca+2\")\n 40 v(3) = SI(\"Calcite\")\n 50 PUNCH v(1), v(2), v(3)\nEND\n";
 
-static const char *IN_ADV =
-    "SOLUTION 0\n Ca 0.6\n Cl 1.2\nSOLUTION 1-3\n Na 1\n Cl 1\nEXCHANGE 1-3\n X 0.0011\n -equilibrate 1\n"
-    "ADVECTION\n -cells 3\n -shifts 3\n -punch_cells 1-3\n -punch_frequency 1\n"
-    "SELECTED_OUTPUT 1\n -reset false\n -step true\n -totals Na Ca Cl\n -molalities NaX CaX2\nEND\n";
 
-static const char *IN_TRN =
-    "SOLUTION 0\n Ca 0.6\n Cl 1.2\nSOLUTION 1-3\n Na 1\n Cl 1\nEXCHANGE 1-3\n X 0.0011\n -equilibrate 1\n"
-    "TRANSPORT\n -cells 3\n -shifts 2\n -lengths 0.1\n -dispersivities 0.01\n -diffusion_coefficient 1e-9\n -time_step 100\n -punch_cells 1-3\n"
-    "SELECTED_OUTPUT 1\n -reset false\n -step true\n -totals Na Ca Cl\nEND\n";
 
-static const char *IN_TRM =
-    "SOLUTION 0\n Ca 0.6\n Cl 1.2\nSOLUTION 1-4\n Na 1\n Cl 1\n"
-    "TRANSPORT\n -cells 4\n -shifts 2\n -flow_direction diffusion_only\n -boundary_conditions constant closed\n -lengths 0.05\n -time_step 1000\n"
-    " -multi_d true 1e-9 0.3 0.05 1.0\n -punch_cells 1-4\n"
-    "SELECTED_OUTPUT 1\n -reset false\n -step true\n -totals Na Ca Cl\nEND\n";
 
-static const char *IN_INV =
-    "SOLUTION 1\n pH 7.5\n Na 1\n Cl 1\n Ca 0.5\n C 1.2\n"
-    "SOLUTION 2\n pH 7.2\n Na 1.4\n Cl 1.4\n Ca 0.9\n C 2.1\n"
-    "INVERSE_MODELING 1\n -solutions 1 2\n -uncertainty 0.05\n -phases\n  Calcite\n  CO2(g)\n  Halite\n -range\n -balances\n  Na 0.05\n"
-    "SELECTED_OUTPUT 1\n -reset false\n -inverse_modeling true\nEND\n";
 
-static const char *IN_ERR = "SOLUTION 1\n Xx 1\n Na 1\nEND\nSOLUTION 2\n Na 1\nEND\n";
-static const char *IN_ERR2 = "SOLUTION 1\n Na 1\n Cl 1\nREACTION 1\n NaCl 1\n 0.001 0.002\nSELECTED_OUTPUT 1\n -reset false\n -totals Na\nEND\n";
+
+
+
+
+
+
+
+
+
 
 // ---------------------------------------------------------------- bodies
 static void b_reg(int t, BodyOut &o) {
@@ -174,23 +157,23 @@ static void b_reg(int t, BodyOut &o) {
   check_mark(o, b, t); check_mark(o, c, t);
   addi(o, "d2", DestroyIPhreeqc(b)); addi(o, "d3", DestroyIPhreeqc(c)); addi(o, "d4", DestroyIPhreeqc(c));
 }
-static void b_spec(int t, BodyOut &o) { run_body(t, o, IN_SPEC); }
-static void b_kin(int t, BodyOut &o) { run_body(t, o, IN_KIN); }
-static void b_basic(int t, BodyOut &o) { run_body(t, o, IN_BASIC); }
-static void b_adv(int t, BodyOut &o) { run_body(t, o, IN_ADV); }
-static void b_trn(int t, BodyOut &o) { run_body(t, o, IN_TRN); }
-static void b_trm(int t, BodyOut &o) { run_body(t, o, IN_TRM); }
-static void b_inv(int t, BodyOut &o) { run_body(t, o, IN_INV); }
-static void b_load(int t, BodyOut &o) { run_body(t, o, IN_SPEC, true); }
+static void b_spec(int t, BodyOut &o) { run_body(t, o, IN_SPEC.c_str()); }
+static void b_kin(int t, BodyOut &o) { run_body(t, o, IN_KIN.c_str()); }
+static void b_basic(int t, BodyOut &o) { run_body(t, o, IN_BASIC.c_str()); }
+static void b_adv(int t, BodyOut &o) { run_body(t, o, IN_ADV.c_str()); }
+static void b_trn(int t, BodyOut &o) { run_body(t, o, IN_TRN.c_str()); }
+static void b_trm(int t, BodyOut &o) { run_body(t, o, IN_TRM.c_str()); }
+static void b_inv(int t, BodyOut &o) { run_body(t, o, IN_INV.c_str()); }
+static void b_load(int t, BodyOut &o) { run_body(t, o, IN_SPEC.c_str(), true); }
 static void b_err(int t, BodyOut &o) {
   int id = create(o, t);
-  addi(o, "run_unloaded", RunString(id, IN_ERR2));
+  addi(o, "run_unloaded", RunString(id, IN_ERR2.c_str()));
   add(o, "err0", GetErrorString(id));
   addi(o, "load", LoadDatabaseString(id, MINI.c_str()));
   strings_on(id);
-  int rc = RunString(id, IN_ERR);
+  int rc = RunString(id, IN_ERR.c_str());
   add_all(o, id, rc);
-  rc = RunString(id, IN_ERR2);
+  rc = RunString(id, IN_ERR2.c_str());
   check_mark(o, id, t);
   add_all(o, id, rc);
   addi(o, "badload", LoadDatabaseString(id, "SOLUTION_MASTER_SPECIES\n Q Q+ 0 Q\nEND\n") != 0);
@@ -205,7 +188,7 @@ static void b_cpp(int t, BodyOut &o) {
   p->SetErrorFileOn(false); p->SetOutputFileOn(false); p->SetLogFileOn(false); p->SetDumpFileOn(false); p->SetSelectedOutputFileOn(false);
   addi(o, "load", p->LoadDatabaseString(MINI.c_str()));
   p->SetOutputStringOn(true); p->SetSelectedOutputStringOn(true); p->SetDumpStringOn(true); p->SetErrorStringOn(true); p->SetLogStringOn(true);
-  const char *s = IN_SPEC;
+  const char *s = IN_SPEC.c_str();
   while (*s) {
     const char *e = strchr(s, '\n');
     std::string line(s, e ? (size_t)(e - s) : strlen(s));
